@@ -828,6 +828,13 @@ func runC03(c *fw.Ctx) {
 					res.Count(fmt.Sprintf("c03-renewal-after-inblock-key-rotation:signed-by-pre-block-keys:accepted=%v", errPre == nil))
 					res.Count(fmt.Sprintf("c03-renewal-after-inblock-key-rotation:signed-by-rotated-keys:accepted=%v", errPost == nil))
 					res.Eval(fmt.Sprintf("rotation/%s/%d/%d", mode, seed, height), true)
+					if errPre == nil {
+						// the contract as it stands after the revision carries the rotated keys; the accepted renewal is signed by the rotated-out pair
+						res.Violate(fw.Violation{Key: "c03-stale-keys-accepted:v2-renewal-after-inblock-rotation",
+							What:     "a block [revision of X rotating both keys; renewal of X signed by the rotated-OUT keys] is accepted; the same renewal signed by the keys of the contract as it stands after the revision is rejected",
+							Expected: "rejected", Observed: "accepted",
+							Replay: map[string]any{"mode": mode, "seed": seed, "height": height, "tamper": "inblock-rotation", "block": fw.Hex(chain.Encode(types.V2Block(pre.block))), "signed_by_rotated_keys_error": fmt.Sprint(errPost)}})
+					}
 					if c.Model != nil {
 						for _, m := range []struct {
 							b   *mutant
